@@ -4,9 +4,16 @@ package main
 // (trusted-proxy middleware, request context, rule executor, reverse proxy) which listens on a loopback port handed
 // out by the kernel.  The rule is loaded through the REAL rule-set parser, rule factory, repository and executor and
 // carries the generated `forward_to` / `rewrite` / `allow_encoded_slashes` configuration; its pipeline consists of REAL
-// `header` and `cookie` finalizers (one per produced header / cookie, so that their order is defined) or of a scripted
-// finalizer calling AddHeaderForUpstream / AddCookieForUpstream / Request.Body() directly.  The upstream is a raw TCP
-// (optionally TLS) listener that records exactly what arrives: request line, header lines, body.
+// `header` and `cookie` finalizers or of a scripted finalizer calling AddHeaderForUpstream / AddCookieForUpstream /
+// Request.Body() directly.  The real finalizers are obtained from the REAL mechanism factory
+// (mechanisms.NewMechanismFactory over a catalogue with one `header` and one `cookie` prototype); every pipeline step
+// of the generated rule overrides the prototype's configuration (`config: {headers: {<name>: <template>}}`), so the
+// templates travel through the real rule-set parser, the rule factory, `WithConfig` and the template decoder.  The
+// templates read the attributes of the subject a scripted authenticator creates from the case (`pipe.subject`) and the
+// request (`.Request.Header`), and render to the values the case lists in `pipe.headers` / `pipe.cookies` (among them
+// empty and blank ones).  Headers with the same `pipe.fin` index are configured in ONE finalizer (a Go map: the case
+// generator gives them distinct canonical names).  The upstream is a raw TCP (optionally TLS) listener that records
+// exactly what arrives: request line, header lines, body.
 //
 // Byte strings travel as JSON strings with one code point (< 256) per byte.
 
@@ -42,6 +49,7 @@ import (
 	"github.com/dadrus/heimdall/internal/heimdall"
 	"github.com/dadrus/heimdall/internal/rules"
 	rulesconfig "github.com/dadrus/heimdall/internal/rules/config"
+	"github.com/dadrus/heimdall/internal/rules/mechanisms"
 	"github.com/dadrus/heimdall/internal/rules/mechanisms/authenticators"
 	"github.com/dadrus/heimdall/internal/rules/mechanisms/authorizers"
 	"github.com/dadrus/heimdall/internal/rules/mechanisms/contextualizers"
@@ -69,11 +77,23 @@ type c15Rule struct {
 	Rewrite *c15Rewrite `json:"rewrite"`
 }
 
+type c15Subject struct {
+	ID    string         `json:"id"`
+	Attrs map[string]any `json:"attrs"`
+}
+
 type c15Pipe struct {
+	// what the pipeline is expected to produce: AddHeaderForUpstream / AddCookieForUpstream calls (name, value)
 	Headers  [][]string `json:"headers"`
 	Cookies  [][]string `json:"cookies"`
 	ReadBody bool       `json:"read_body"`
 	Scripted bool       `json:"scripted"`
+	// real finalizers: template source per header / cookie (absent: the value itself is the template), the finalizer
+	// a header is configured in (absent: one finalizer per header), the subject the templates are rendered over
+	Tmpl    []string    `json:"tmpl"`
+	CTmpl   []string    `json:"ctmpl"`
+	Fin     []int       `json:"fin"`
+	Subject *c15Subject `json:"subject"`
 }
 
 type c15Req struct {
@@ -358,7 +378,7 @@ func c15NewUpstream(name string) (*c15UpstreamT, error) {
 // ---------------------------------------------------------------------------------------------------------------
 // mechanisms: real header / cookie finalizers, scripted authenticator and scripted finalizer
 
-type c15Authn struct{}
+type c15Authn struct{ pipe *c15Pipe }
 
 func (a *c15Authn) ID() string                     { return "c15-anon" }
 func (a *c15Authn) IsFallbackOnErrorAllowed() bool { return false }
@@ -367,7 +387,17 @@ func (a *c15Authn) WithConfig(map[string]any) (authenticators.Authenticator, err
 }
 
 func (a *c15Authn) Execute(heimdall.Context) (*subject.Subject, error) {
-	return &subject.Subject{ID: "c15", Attributes: map[string]any{}}, nil
+	sub := &subject.Subject{ID: "c15", Attributes: map[string]any{}}
+
+	if s := a.pipe.Subject; s != nil {
+		sub.ID = s.ID
+
+		for k, v := range s.Attrs {
+			sub.Attributes[k] = v
+		}
+	}
+
+	return sub, nil
 }
 
 type c15Fin struct {
@@ -398,12 +428,42 @@ func (f *c15Fin) Execute(ctx heimdall.Context, _ *subject.Subject) error {
 	return nil
 }
 
-type c15Factory struct{ pipe *c15Pipe }
+// c15Factory hands out the scripted authenticator and the scripted finalizers itself; `header` and `cookie`
+// finalizers come from the real mechanism factory
+type c15Factory struct {
+	pipe *c15Pipe
+	real mechanisms.MechanismFactory
+}
+
+const (
+	c15HeaderProto = "c15-header"
+	c15CookieProto = "c15-cookie"
+)
+
+func c15NewFactory(pipe *c15Pipe) (*c15Factory, error) {
+	real, err := mechanisms.NewMechanismFactory(&config.Configuration{
+		Prototypes: &config.MechanismPrototypes{
+			Finalizers: []config.Mechanism{
+				{ID: c15HeaderProto, Type: finalizers.FinalizerHeader, Config: config.MechanismConfig{
+					"headers": map[string]any{"X-C15-Prototype": "{{ .Subject.ID }}"},
+				}},
+				{ID: c15CookieProto, Type: finalizers.FinalizerCookie, Config: config.MechanismConfig{
+					"cookies": map[string]any{"c15-prototype": "{{ .Subject.ID }}"},
+				}},
+			},
+		},
+	}, zerolog.Nop(), nil, nil, nil)
+	if err != nil {
+		return nil, err
+	}
+
+	return &c15Factory{pipe: pipe, real: real}, nil
+}
 
 var errC15Unknown = errors.New("harness: unknown mechanism id") //nolint:gochecknoglobals
 
 func (f *c15Factory) CreateAuthenticator(_, _ string, _ config.MechanismConfig) (authenticators.Authenticator, error) {
-	return &c15Authn{}, nil
+	return &c15Authn{pipe: f.pipe}, nil
 }
 
 func (f *c15Factory) CreateAuthorizer(_, id string, _ config.MechanismConfig) (authorizers.Authorizer, error) {
@@ -420,35 +480,51 @@ func (f *c15Factory) CreateErrorHandler(_, id string, _ config.MechanismConfig) 
 	return nil, fmt.Errorf("%w: %s", errC15Unknown, id)
 }
 
-func (f *c15Factory) CreateFinalizer(_, id string, _ config.MechanismConfig) (finalizers.Finalizer, error) {
-	switch {
-	case id == "body":
+func (f *c15Factory) CreateFinalizer(version, id string, conf config.MechanismConfig) (finalizers.Finalizer, error) {
+	switch id {
+	case "body":
 		return &c15Fin{id: id, pipe: f.pipe}, nil
-	case id == "scripted":
+	case "scripted":
 		return &c15Fin{id: id, pipe: f.pipe, all: true}, nil
-	case strings.HasPrefix(id, "h"):
-		idx, err := strconv.Atoi(id[1:])
-		if err != nil || idx >= len(f.pipe.Headers) {
-			return nil, fmt.Errorf("%w: %s", errC15Unknown, id)
-		}
-
-		h := f.pipe.Headers[idx]
-
-		return finalizers.CreatePrototype(nil, id, finalizers.FinalizerHeader,
-			map[string]any{"headers": map[string]any{h[0]: h[1]}})
-	case strings.HasPrefix(id, "c"):
-		idx, err := strconv.Atoi(id[1:])
-		if err != nil || idx >= len(f.pipe.Cookies) {
-			return nil, fmt.Errorf("%w: %s", errC15Unknown, id)
-		}
-
-		c := f.pipe.Cookies[idx]
-
-		return finalizers.CreatePrototype(nil, id, finalizers.FinalizerCookie,
-			map[string]any{"cookies": map[string]any{c[0]: c[1]}})
+	case c15HeaderProto, c15CookieProto:
+		return f.real.CreateFinalizer(version, id, conf)
 	}
 
 	return nil, fmt.Errorf("%w: %s", errC15Unknown, id)
+}
+
+// c15Template is the template source of the i-th header / cookie: listed explicitly, else the value as a constant
+func c15Template(tmpl []string, i int, value string) string {
+	if i < len(tmpl) {
+		return tmpl[i]
+	}
+
+	return value
+}
+
+// c15FinalizerSteps: the pipeline steps producing pipe.Headers and pipe.Cookies with real finalizers.  Headers with
+// the same pipe.Fin index (consecutive ones) share a finalizer.
+func c15FinalizerSteps(p *c15Pipe) []any {
+	var steps []any
+
+	for i := 0; i < len(p.Headers); {
+		hs := map[string]any{}
+		j := i
+
+		for ; j < len(p.Headers) && (j == i || (j < len(p.Fin) && i < len(p.Fin) && p.Fin[j] == p.Fin[i])); j++ {
+			hs[p.Headers[j][0]] = c15Template(p.Tmpl, j, p.Headers[j][1])
+		}
+
+		steps = append(steps, map[string]any{"finalizer": c15HeaderProto, "config": map[string]any{"headers": hs}})
+		i = j
+	}
+
+	for i, c := range p.Cookies {
+		steps = append(steps, map[string]any{"finalizer": c15CookieProto,
+			"config": map[string]any{"cookies": map[string]any{c[0]: c15Template(p.CTmpl, i, c[1])}}})
+	}
+
+	return steps
 }
 
 // ---------------------------------------------------------------------------------------------------------------
@@ -545,8 +621,12 @@ func c15UpstreamHost(kind string) string {
 // c15Load builds factory -> repository -> executor and loads the generated rule through the real parser and
 // rule-set processor.  A non-empty string is the stage that rejected the configuration.
 func c15Load(c *c15Case) (rule.Executor, string, error) {
-	factory, err := rules.NewRuleFactory(&c15Factory{pipe: &c.Pipe}, &config.Configuration{}, config.ProxyMode,
-		zerolog.Nop())
+	mf, err := c15NewFactory(&c.Pipe)
+	if err != nil {
+		return nil, "", err
+	}
+
+	factory, err := rules.NewRuleFactory(mf, &config.Configuration{}, config.ProxyMode, zerolog.Nop())
 	if err != nil {
 		return nil, "", err
 	}
@@ -563,13 +643,7 @@ func c15Load(c *c15Case) (rule.Executor, string, error) {
 			exec = append(exec, map[string]any{"finalizer": "body"})
 		}
 
-		for i := range c.Pipe.Headers {
-			exec = append(exec, map[string]any{"finalizer": "h" + strconv.Itoa(i)})
-		}
-
-		for i := range c.Pipe.Cookies {
-			exec = append(exec, map[string]any{"finalizer": "c" + strconv.Itoa(i)})
-		}
+		exec = append(exec, c15FinalizerSteps(&c.Pipe)...)
 	}
 
 	fwd := map[string]any{"host": c15UpstreamHost(c.Rule.Host)}
@@ -717,9 +791,9 @@ func c15Send(addr, peer string, withTLS bool, r *c15Req) (int, bool, error) {
 		buf.WriteString("\r\n")
 	}
 
-	if _, err = conn.Write(buf.Bytes()); err != nil {
-		return 0, false, err
-	}
+	// Go's HTTP server answers a request line it cannot parse (400) and closes without reading the body: writing a
+	// large body then fails with a reset while the answer is already there.  The answer is what counts.
+	_, werr := conn.Write(buf.Bytes())
 
 	br := bufio.NewReader(conn)
 
@@ -730,6 +804,10 @@ func c15Send(addr, peer string, withTLS bool, r *c15Req) (int, bool, error) {
 	}
 
 	if err != nil {
+		if werr != nil {
+			return 0, false, werr
+		}
+
 		return -1, false, nil //nolint:nilerr
 	}
 
